@@ -36,18 +36,19 @@ def run(tier, replay=None):
     open(os.path.join(wd, 'W.tla'), 'w').write(
         '---- MODULE W ----\nEXTENDS Writer\nWNodes == 1..%d\nWPrior == {<<>>, <<"">>, <<"old">>}\n====\n' % nodes)
     mc = {}
-    for design in ('validate-first', 'open-first'):
+    for design in ('validate-first', 'open-first', 'check-open-serialise'):
         cfg = os.path.join(wd, 'W_%s.cfg' % design)
         open(cfg, 'w').write(MC_CFG % design)
         r = tlc.run(os.path.join(wd, 'W.tla'), cfg, workers=1, timeout=600)
         mc[design] = r
     if not mc['validate-first']['complete']:
         raise tlc.TLCError('Writer.tla (validate-first) does not satisfy its invariants:\n' + mc['validate-first']['out'][-2000:])
-    if 'AllOrNothing' not in mc['open-first']['violated']:
-        raise tlc.TLCError('negative control failed: Writer.tla (open-first) should violate AllOrNothing')
+    for bad in ('open-first', 'check-open-serialise'):
+        if 'AllOrNothing' not in mc[bad]['violated']:
+            raise tlc.TLCError('negative control failed: Writer.tla (%s) should violate AllOrNothing' % bad)
     # GEN
     open(os.path.join(wd, 'WG.tla'), 'w').write('---- MODULE WG ----\nEXTENDS WriterGen\n====\n')
-    open(os.path.join(wd, 'WG.cfg'), 'w').write('SPECIFICATION Spec\nCONSTANT NFaults = 10\nINVARIANT Emit\nCHECK_DEADLOCK FALSE\n')
+    open(os.path.join(wd, 'WG.cfg'), 'w').write('SPECIFICATION Spec\nCONSTANT NFaults = 11\nINVARIANT Emit\nCHECK_DEADLOCK FALSE\n')
     g = tlc.run(os.path.join(wd, 'WG.tla'), os.path.join(wd, 'WG.cfg'), workers=1, timeout=600)
     if not g['complete']:
         raise tlc.TLCError('WriterGen failed:\n' + g['out'][-2000:])
@@ -105,16 +106,18 @@ def run(tier, replay=None):
                                  clause, e['scn'], e['enc'], e['res']['ok'], e['res']['exc'], e['before'][:12], e['after'][:12],
                                  e['expect'][:12], e['effects']),
                              replay=dict(scn=e['scn'], enc=e['enc'], event=e)))
-    cov = dict(states=mc['validate-first']['distinct'] + mc['open-first']['distinct'] + g['distinct'] + v['distinct'],
-               transitions=mc['validate-first']['generated'] + mc['open-first']['generated'] + g['generated'] + v['generated'],
+    cov = dict(states=sum(r_['distinct'] for r_ in mc.values()) + g['distinct'] + v['distinct'],
+               transitions=sum(r_['generated'] for r_ in mc.values()) + g['generated'] + v['generated'],
                traces_validated_against_impl=len(events), evaluations=len(events),
                distinct_nontrivial=done[0][2].get('C17_aon', 0) + done[0][2].get('C17_declared', 0),
-               rule='TLC (WriterGen) enumerates fault scenarios (failing node 0..10 x prior file state x intelligent_choice); each is executed '
+               rule='TLC (WriterGen) enumerates fault scenarios (failing node 0..10 or a serialisation fault x prior file state x intelligent_choice); each is executed '
                     'under 4 default text encodings; distinct_nontrivial = write() calls that exercised C17_aon (raised) or C17_declared (returned), counted by TLC',
                exercised_per_clause=done[0][2], scenarios=len(scen), encodings=ENCS, import_failed_under=import_failed,
                mc=dict(validate_first=dict(states=mc['validate-first']['distinct'], holds=True),
                        open_first=dict(states=mc['open-first']['distinct'], violated=mc['open-first']['violated'],
-                                       note='negative control: the pre-repair ordering violates AllOrNothing in the model')),
+                                       note='negative control: the pre-repair ordering violates AllOrNothing in the model'),
+                       check_open_serialise=dict(states=mc['check-open-serialise']['distinct'], violated=mc['check-open-serialise']['violated'],
+                                                 note='negative control: validating first but producing the text after truncation also violates it')),
                model_drift=drift[:20], model_drift_count=len(drift),
                samples=[dict(scn=e['scn'], enc=e['enc'], ok=e['res']['ok'], exc=e['res']['exc'], effects=e['effects'],
                              before=e['before'][:12], after=e['after'][:12]) for e in events[3:60:19]])
